@@ -29,6 +29,11 @@ void map_case(unsigned lg, uint32_t h, uint64_t seed, bool fullBijection, Stats&
 	Map map = load(m);
 	std::string ctx = "[width 2^" + std::to_string(lg) + " height " + std::to_string(h) + "]";
 	V_CHECK(map.WidthInTiles() == W && map.HeightInTiles() == h && map.TileCount() == n, ctx << " reported dimensions " << map.WidthInTiles() << "x" << map.HeightInTiles() << " count " << map.TileCount());
+	// copies address tiles like the original: copy-constructed, copy-assigned over a map of another shape, move-constructed
+	{ Map c1 = map; LMap other; other.lgWidth = 5; other.height = 2; other.versionTag = 0x1011; other.tiles.assign(64, 0); Map c2 = load(other); c2 = c1; Map c3 = std::move(c1);
+	  for (Map* c : {&c2, &c3}) { V_CHECK(c->WidthInTiles() == W && c->HeightInTiles() == h && c->TileCount() == n, ctx << " a copied map reports other dimensions");
+	    for (uint64_t k = 0; k < 24; ++k) { uint64_t x = (k * 0x9E3779B97F4A7C15ULL >> 20) % W, y = (k * 0xC2B2AE3D27D4EB4FULL >> 24) % h; uint32_t w = m.tiles[refmap::tile_index(x, y, h)];
+	      V_CHECK(static_cast<uint32_t>(c->GetCellType(x, y)) == refmap::tile_cell(w) && c->GetTileMappingIndex(x, y) == refmap::tile_mapping(w), ctx << " a copied map addresses (" << x << "," << y << ") differently"); } } }
 	// getters == fields of the raw word at the independently computed index, for every coordinate; coordinates cover the array exactly once
 	std::vector<uint8_t> seen(n, 0);
 	for (uint64_t y = 0; y < h; ++y) for (uint64_t x = 0; x < W; ++x) {
